@@ -443,9 +443,12 @@ static void plan_c11(void)
                   for (int q = 0; q < 7; q++) for (int dmg = 0; dmg < 2; dmg++) {
                       if (!vh_case_begin("f%d/writer%06x/%s", fi, oldv[q], dmg ? "payload-damaged" : "intact")) continue;
                       vh_nontrivial();
-                      memcpy(nat, enc_frag(&s, fi), s.flen); put_le32(nat + 63, oldv[q]); if (dmg && bs) nat[WIRE_HDR + bs - 1] ^= 0x40;
-                      memcpy(tw, nat, s.flen); wire_byteswap_twin(tw);
+                      /* such writers stored no metadata checksum: the field holds whatever it held (zero here), in both byte orders */
+                      memcpy(nat, enc_frag(&s, fi), s.flen); put_le32(nat + 63, oldv[q]); put_le32(nat + 67, 0); if (dmg && bs) nat[WIRE_HDR + bs - 1] ^= 0x40;
+                      memcpy(tw, nat, s.flen); twin_raw(tw);
                       c11_compare(&s, fi, nat, tw, "old-writer");
+                      put_le32(nat + 67, 0xdeadbeef); memcpy(tw, nat, s.flen); twin_raw(tw);
+                      c11_compare(&s, fi, nat, tw, "old-writer, garbage in the checksum field");
                   } }
                 /* payload damage: both readers must flag it */
                 for (uint32_t bit = 0; bit < bs * 8; bit += (bs > 16 ? 37 : 1)) {
@@ -545,7 +548,8 @@ static void plan_c12(void)
                 memcpy(w, base, s.flen); wire_byteswap_twin(w); C12("%s", "opposite-endian-twin");
                 /* opposite-endian fragments of old writers (their version word, byte-swapped, may look older than the running library) */
                 { static const uint32_t oldv[] = { 0x010000, 0x010100, 0x010009, 0x0101ff, 0x010200, 0x000001 };
-                  for (int x = 0; x < 6; x++) { memcpy(w, base, s.flen); put_le32(w + 63, oldv[x]); wire_seal(w, 0); wire_byteswap_twin(w); C12("opposite-endian-twin/writer%06x", oldv[x]); } }
+                  for (int x = 0; x < 6; x++) { memcpy(w, base, s.flen); put_le32(w + 63, oldv[x]); wire_seal(w, 0); wire_byteswap_twin(w); C12("opposite-endian-twin/writer%06x", oldv[x]);
+                                                 memcpy(w, base, s.flen); put_le32(w + 63, oldv[x]); put_le32(w + 67, 0); twin_raw(w); C12("opposite-endian-twin/writer%06x/unsealed", oldv[x]); } }
                 /* a correctly sealed header that carries a set mismatch flag over an intact CRC32 payload: the verdict is computed, not copied */
                 if (base[20] == CHKSUM_CRC32) { memcpy(w, base, s.flen); w[53] = 1; wire_seal(w, 0); C12("%s", "stored-mismatch-flag-over-intact-payload"); }
                 memcpy(w, base, s.flen); w[3] ^= 1; C12("%s", "stale-metadata-crc");
